@@ -493,11 +493,15 @@ h5model.OBJ_METHODS[("Masks", "__len__")] = lambda interp, m: m.fields["n"]
 
 
 class GetContour(Contract):
-    """get_contour(mask): a function of the mask (its tracing property is exercised by the bounded layer)"""
+    """get_contour(mask): a function of the mask (its tracing property is exercised by the bounded
+    layer); a mask without a contour raises NoValidContourFoundError"""
     name = "get_contour"
     trusted = True
 
     def __call__(self, interp, mask):
+        if interp.ctx.decide(interp.ctx.bool("mask_has_no_contour", inp=True)):
+            from dclab.features.contour import NoValidContourFoundError
+            raise PyRaise(NoValidContourFoundError, ("No contour found!",))
         return SOpaque(CONT(to_z3(mask)))
 
 
@@ -540,6 +544,11 @@ class LazyContourGetitem(Contract):
         self_ = ctx.obj("LazyContourList", {"masks": ctx.obj("Masks", {"n": nev}, name="masks"), "indices": self._ind,
                                             "contours": self._cont}, name="self")
         return {"self": self_, "idx": idx}
+
+    def exceptional(self, ctx, old, a, exc):
+        # a mask without a contour: the error propagates and the cache stays consistent
+        return z3.And(z3.BoolVal(exc.name == "NoValidContourFoundError"), z3.Bool("mask_has_no_contour"),
+                      self.inv(self._ind, self._cont))
 
     def ensures(self, ctx, old, a, result):
         return [("the contour served for event idx is the contour of mask idx", to_z3(result) == CONT(MASK(a.idx.e))),
@@ -642,12 +651,22 @@ def replay(unit_name, inp, obligation=""):
             yy, xx = np.mgrid[:30, :40]
             for ii in range(7):
                 masks[ii] = ((xx - (8 + 4 * ii)) / (3 + ii * 0.5)) ** 2 + ((yy - (8 + 2 * ii)) / (2.5 + 0.3 * ii)) ** 2 <= 1
-            want = [get_contour(m) for m in masks]
+            masks[3] = False           # an event without a contour: reading it raises, the others are unaffected
+            want = [get_contour(m) if m.any() else None for m in masks]
             for max_events in ((None, 3, 2, 1000) if "limit" in unit_name else (None, 0)):
                 lazy = LazyContourList(masks, max_events=max_events) if max_events != 1000 else LazyContourList(masks)
                 pattern = [0, 1, 2, 3, 1, 2, 3, 0, 4, 4, 5, 1, 5, 3, 0, 2] + [int(i) for i in rng.integers(0, 7, 40)]
                 for step, i in enumerate(pattern):
-                    got = lazy[i]
+                    try:
+                        got = lazy[i]
+                    except BaseException as ex:
+                        if want[i] is None:
+                            continue
+                        return {"failed": True, "detail": f"LazyContourList(max_events={max_events}): after the accesses "
+                                                          f"{pattern[:step]} reading event {i} raises {type(ex).__name__}"}
+                    if want[i] is None:
+                        return {"failed": True, "detail": f"LazyContourList(max_events={max_events}): after the accesses "
+                                                          f"{pattern[:step]} the empty mask {i} is served a contour"}
                     if got.shape != want[i].shape or not np.array_equal(got, want[i]):
                         return {"failed": True, "detail": f"LazyContourList(max_events={max_events}): after the accesses "
                                                           f"{pattern[:step]} the contour served for event {i} is not the contour of mask {i}"}
